@@ -221,16 +221,27 @@ class Checker(object):
             f = B.build(b, env)
             fi = {}
             for (fn, fty), (formals, body) in interps.items():
+                plist = [B.build(B.Sym(*p), env) for p in formals]
                 fi[B.build(B.Sym(fn, fty), env)] = FunctionInterpretation(
-                    [B.build(B.Sym(*p), env) for p in formals],
-                    B.build(body, env))
+                    plist, B.build(body, env))
+                # the caller goes on using its list of parameters
+                plist.reverse()
+                plist.append(f)
             fsubs = {B.build(B.Sym(*k), env): B.build(v, env)
                      for k, v in smap.items()}
         except Exception as e:
             return 'build', repr(e)
         fb = B.describe(f)
+        self.ninterp = getattr(self, 'ninterp', 0) + 1
         try:
-            if mode == 'default':
+            if mode == 'default' and self.ninterp % 3 == 0:
+                # the module-level entry point (no map at all when there
+                # is nothing but interpretations)
+                import pysmt.shortcuts as SC
+                self.rep.count('interp_through_shortcut')
+                r = SC.substitute(f, fsubs if fsubs else (
+                    None if self.ninterp % 2 else {}), fi)
+            elif mode == 'default':
                 r = f.substitute(fsubs, fi)
             elif mode == 'mgs':
                 r = MGSubstituter(env).substitute(f, fsubs, fi)
